@@ -196,6 +196,87 @@ var propBuf = stats.Prop(R, "buffer", genBuf, checkBuf)
 
 func TestBuffer(t *testing.T) { rapid.Check(t, propBuf) }
 
+// ---- sequences of single-frame decodes through one handler, from one reused buffer
+
+type SeqCase struct {
+	Bufs   []stats.Hex `json:"bufs"`   // contents decoded one after the other
+	Shared bool        `json:"shared"` // all of them are copied into the same backing array before decoding
+}
+
+func checkSeq(c SeqCase, o *stats.Obs) error {
+	h := drive.NewHandler(slog.LevelInfo)
+	max := 0
+	for _, b := range c.Bufs {
+		if len(b) > max {
+			max = len(b)
+		}
+	}
+	shared := make([]byte, max)
+	bad := false
+	for i, b := range c.Bufs {
+		var in []byte
+		if c.Shared {
+			in = shared[:len(b)]
+			copy(in, b)
+		} else {
+			in = append([]byte{}, b...)
+		}
+		m, err := h.GetMessage(in)
+		if m != nil && m.MessageType >= 0 && err == nil {
+			if e := typedOK(m.RawData, m.MessageType); e != nil {
+				o.Key = "getmessage-sequence-typed-nonframe"
+				return fmt.Errorf("decode %d of a sequence through one handler (shared buffer: %v): GetMessage(%x) returned a typed message without error: %v; earlier inputs: %x", i, c.Shared, []byte(b), e, c.Bufs[:i])
+			}
+		}
+		if len(b) > 0 && b[0] == 0xD3 && !ref.ValidFrame(b) {
+			bad = true
+		}
+	}
+	o.NonTrivial = bad && len(c.Bufs) >= 2
+	if c.Shared {
+		o.Class("shared-buffer")
+	}
+	return nil
+}
+
+func genSeq(t *rapid.T) SeqCase {
+	c := SeqCase{Shared: rapid.IntRange(0, 3).Draw(t, "shared") != 0}
+	f := gen.ValidFrame(t, 40)
+	n := rapid.IntRange(2, 5).Draw(t, "n")
+	for i := 0; i < n; i++ {
+		switch rapid.IntRange(0, 4).Draw(t, "step") {
+		case 0:
+			c.Bufs = append(c.Bufs, f)
+		case 1, 2: // same type and length, damaged in payload or CRC
+			d := append([]byte{}, f...)
+			k := rapid.IntRange(1, 3).Draw(t, "nDamage")
+			for j := 0; j < k; j++ {
+				lo := 5
+				if len(d) <= 5 {
+					lo = len(d) - 3
+				}
+				p := rapid.IntRange(lo, len(d)-1).Draw(t, "pos")
+				d[p] ^= byte(rapid.IntRange(1, 255).Draw(t, "xor"))
+			}
+			c.Bufs = append(c.Bufs, d)
+		case 3:
+			f = gen.ValidFrame(t, 40)
+			c.Bufs = append(c.Bufs, f)
+		default:
+			d, _ := gen.Corrupt(t, f)
+			if len(d) > 200 {
+				d = d[:200]
+			}
+			c.Bufs = append(c.Bufs, d)
+		}
+	}
+	return c
+}
+
+var propSeq = stats.Prop(R, "sequence", genSeq, checkSeq)
+
+func TestSequence(t *testing.T) { rapid.Check(t, propSeq) }
+
 // FuzzBuffer: native fuzzing of the single-buffer oracle.
 func FuzzBuffer(f *testing.F) {
 	f.Add([]byte{0xd3, 0x00, 0x08, 0x4c, 0xe0, 00, 0x8a, 0, 0, 0, 0, 0xa8, 0xf7, 0x2a})
